@@ -450,6 +450,11 @@ func propC15(r *Run) {
 		if gb, ok := ss[0].(seqio.GenBank); ok {
 			circ = gb.Fields.Topology == gts.Circular
 		}
+		if gts.Len(ss[0]) == 0 {
+			// NC_000913.3.min.gb carries no residues: gts.Rotate divides by the length (C04's scope)
+			r.count("skipped/corpus-record-without-residues/" + n)
+			continue
+		}
 		s := c15Faithful(gts.New(nil, ss[0].Features(), ss[0].Bytes()), circ)
 		if s == nil {
 			r.count("skipped/corpus-record-not-stable/" + n)
@@ -474,6 +479,36 @@ func propC15(r *Run) {
 		records = append(records, rec{s, circ, "generated"})
 	}
 
+	// small scope: a 5-residue record with two `gene` features, every ordered pair of ranges on
+	// either strand (thorough: all 900 pairs; quick: a seeded sample) — overlapping, nested,
+	// abutting, unsorted, duplicate and two-stranded sites under the locator `gene`
+	var pairLocs []gts.Location
+	for a := 0; a < 5; a++ {
+		for b := a + 1; b <= 5; b++ {
+			pairLocs = append(pairLocs, gts.Range(a, b), gts.Complemented{Location: gts.Range(a, b)})
+		}
+	}
+	small := 0
+	for i, la := range pairLocs {
+		for j, lb := range pairLocs {
+			if !thorough && r.rng.intn(6) != 0 {
+				continue
+			}
+			ff := gts.FeatureSlice{}
+			ff = ff.Insert(gts.Feature{Key: "gene", Loc: la, Props: gts.Props{}})
+			ff = ff.Insert(gts.Feature{Key: "gene", Loc: lb, Props: gts.Props{}})
+			circ := (i+j)%2 == 0
+			s := c15Faithful(gts.New(nil, ff, []byte("acgtn")), circ)
+			if s == nil {
+				r.count("skipped/generated-record-not-stable")
+				continue
+			}
+			records = append(records, rec{s, circ, "small-scope/two-genes"})
+			small++
+		}
+	}
+	r.exhaustive = thorough
+
 	var cases []c15Case
 	perRecord := 10
 	if thorough {
@@ -485,10 +520,16 @@ func propC15(r *Run) {
 		if strings.HasPrefix(rc.name, "corpus/") && gts.Len(rc.seq) > 1000 {
 			n = perRecord / 2
 		}
+		if strings.HasPrefix(rc.name, "small-scope/") {
+			n = 1
+		}
 		for k := 0; k < n; k++ {
 			for _, op := range ops {
 				c := c15Case{op: op, seq: rc.seq, circ: rc.circ, source: rc.name, fasta: r.rng.intn(5) == 0, flag: r.rng.intn(2) == 0}
 				c.locs = []string{c15Locator(r.rng, rc.seq)}
+				if strings.HasPrefix(rc.name, "small-scope/") {
+					c.locs = []string{"gene"}
+				}
 				if op == "cli.extract" {
 					for j := r.rng.intn(3); j > 0; j-- {
 						if r.rng.intn(3) == 0 {
